@@ -206,3 +206,21 @@ CORPUS += [
         )''', "C05.c"),
     V("C05", "fjsp-machine-eligibility-on-wrong-op", S_ + "fjsp/env.py", "        action_mask.add_(next_ops_proc_times == 0)\n", '        action_mask.add_(next_ops_proc_times == 0)\n        action_mask.add_(td["busy_until"].sum(-1)[:, None, None] > 1e9)\n', "C05.b"),
 ]
+
+E_ = "rl4co/envs/eda/"
+CORPUS += [
+    # ---------------------------------------------------------------- C08
+    V("C08", "flp-done-off-by-one", G_ + "flp/env.py", 'done = td["i"] >= (td["to_choose"] - 1)', 'done = td["i"] >= td["to_choose"]', "C08.a"),
+    V("C08", "mcp-done-strict", G_ + "mcp/env.py", 'done = td["i"] >= (td["n_sets_to_choose"] - 1)', 'done = td["i"] > (td["n_sets_to_choose"] - 1)', "C08.a"),
+    V("C08", "dpp-counter-double-increment", E_ + "dpp/env.py", '"i": td["i"] + 1,', '"i": td["i"] + 2,', "C08.a"),
+    V("C08", "flp-mask-from-old-chosen", G_ + "flp/env.py", "        action_mask = ~chosen\n", '        action_mask = ~td["chosen"]\n', "C08.b"),
+    V("C08", "mcp-chosen-not-cloned-overwrite", G_ + "mcp/env.py", "chosen[torch.arange(batch_size).to(td.device), selected] = True", "chosen = torch.zeros_like(chosen); chosen[torch.arange(batch_size).to(td.device), selected] = True", "C08.b"),
+    V("C08", "dpp-mask-reopens", E_ + "dpp/env.py", '-1, current_node.unsqueeze(-1).expand_as(td["action_mask"]), 0\n', '-1, current_node.unsqueeze(-1).expand_as(td["action_mask"]), 1\n', "C08.b"),
+    V("C08", "mdpp-probe-not-excluded", E_ + "mdpp/env.py", 'action_mask = torch.logical_and(td_reset["action_mask"], ~td_reset["probe"])', 'action_mask = td_reset["action_mask"]', "C08.c"),
+    V("C08", "mdpp-probe-polarity", E_ + "mdpp/env.py", 'action_mask = torch.logical_and(td_reset["action_mask"], ~td_reset["probe"])', 'action_mask = torch.logical_and(td_reset["action_mask"], td_reset["probe"])', "C08.c"),
+    V("C08", "dpp-reset-ignores-keepout", E_ + "dpp/env.py", '"action_mask": td["action_mask"],', '"action_mask": torch.ones_like(td["action_mask"]),', "C08.c"),
+    V("C08", "flp-distances-from-mutated", G_ + "flp/env.py", 'orig_distances = td["orig_distances"]  # (batch_size, n_points, n_points)', 'orig_distances = td["distances"]  # (batch_size, n_points, n_points)', "C08.d"),
+    V("C08", "mcp-weights-from-old-selection", G_ + "mcp/env.py", 'chosen_membership = chosen.unsqueeze(-1) * td["membership"]\n        chosen_membership_nonzero', 'chosen_membership = td["chosen"].unsqueeze(-1) * td["membership"]\n        chosen_membership_nonzero', "C08.d"),
+    V("C08", "eq-flp-mask-logical-not", G_ + "flp/env.py", "        action_mask = ~chosen\n", "        action_mask = torch.logical_not(chosen)\n", None),
+    V("C08", "eq-dpp-done-rearranged", E_ + "dpp/env.py", 'done = td["i"] >= self.max_decaps - 1', 'done = td["i"] + 1 >= self.max_decaps', None),
+]
